@@ -958,6 +958,51 @@ func ruleC09Ifchanged(p *Prog, a *Anchors, r *Report) {
 	if !stored {
 		r.Bad("remember", p.Pos(f.Pos()), "the evaluated values are never remembered (ifchanged would compare against nothing or against stale data updated in place)")
 	}
+	// a two-way branch in both of its forms: with watched values and with its own rendered content as what is watched,
+	// the else-part is executed somewhere (the content form once had no arm for "unchanged" at all)
+	{
+		var formIf *ssa.If
+		for _, b := range exec.Blocks {
+			iff, ok := b.Instrs[len(b.Instrs)-1].(*ssa.If)
+			if !ok {
+				continue
+			}
+			if bo, isBo := iff.Cond.(*ssa.BinOp); isBo && (bo.Op == token.EQL || bo.Op == token.NEQ || bo.Op == token.GTR) {
+				if l := lenOperand(bo.X); l != nil && loadsField(l, "tagIfchangedNode", "watchedExpr") {
+					formIf = iff
+				}
+			}
+		}
+		if formIf == nil {
+			r.Unk("else:both-forms", p.Pos(exec.Pos()), "cannot find the test that tells the two forms of the tag apart (len(watchedExpr))")
+		} else {
+			elseIn := func(start *ssa.BasicBlock) bool {
+				for _, fn := range clusterOf(p, exec, 1) {
+					for _, b := range fn.Blocks {
+						if fn == exec && !start.Dominates(b) {
+							continue
+						}
+						for _, in := range b.Instrs {
+							c, ok := in.(*ssa.Call)
+							if !ok || c.Common().StaticCallee() == nil || c.Common().StaticCallee().Name() != "Execute" || len(c.Common().Args) == 0 {
+								continue
+							}
+							if loadsField(c.Common().Args[0], "tagIfchangedNode", "elseWrapper") {
+								return true
+							}
+						}
+					}
+				}
+				return false
+			}
+			s0, s1 := formIf.Block().Succs[0], formIf.Block().Succs[1]
+			if elseIn(s0) && elseIn(s1) {
+				r.OK("else:both-forms", p.InstrPos(formIf), "the else-part is executed in the form with watched values and in the form that watches its own content")
+			} else {
+				r.Bad("else:both-forms", p.InstrPos(formIf), "one of the two forms of ifchanged never executes the else-part (with watched values: %v / %v by edge): {%% ifchanged %%}…{%% else %%}…{%% endifchanged %%} renders nothing when the content did not change", elseIn(s0), elseIn(s1))
+			}
+		}
+	}
 	// "differs from the previous iteration": the comparator must answer "same" for two equal values of every kind.
 	// (*Value).EqualValueTo does not: it returns false as soon as one side is the nil value and for everything ==
 	// cannot compare (read off its own source below). A tag that decides by EqualValueTo alone therefore prints on
